@@ -15,6 +15,8 @@ import (
 	"fmt"
 	mrand "math/rand"
 	"os"
+	"runtime"
+	"sort"
 	"strings"
 
 	"github.com/kercylan98/vivid/xverif/lib"
@@ -53,7 +55,19 @@ func record(o *lib.Out, c lib.T, h hit) {
 	o.Stats["hit-class:"+k]++
 }
 
+// rank: property-level hits on a failing history first, then witness bookkeeping, then harness-level problems
+func rank(name string) int {
+	switch {
+	case strings.HasPrefix(name, "harness:"):
+		return 2
+	case strings.HasPrefix(name, "witness-"):
+		return 1
+	}
+	return 0
+}
+
 func flushHits(o *lib.Out) {
+	sort.SliceStable(classOrder, func(i, j int) bool { return rank(classes[classOrder[i]].name) < rank(classes[classOrder[j]].name) })
 	for _, k := range classOrder {
 		cl := classes[k]
 		o.Monitor(cl.name, cl.c, fmt.Sprintf("%s [this class of hit occurred in %d scenarios of this run]", cl.detail, cl.n))
@@ -67,6 +81,19 @@ func emit(o *lib.Out, kind string, idx int, s *Sim, hits []hit) {
 	for _, h := range hits {
 		record(o, lib.L(lib.S(kind), lib.NI(idx)), h)
 	}
+}
+
+// guarded runs one scenario; a panic inside it (of the harness or of the code under test) becomes a named monitor hit
+// carrying the scenario, and the run continues with the next scenario.
+func guarded(o *lib.Out, kind string, idx int, f func()) {
+	defer func() {
+		if x := recover(); x != nil {
+			buf := make([]byte, 4096)
+			buf = buf[:runtime.Stack(buf, false)]
+			record(o, lib.L(lib.S(kind), lib.NI(idx)), hit{"harness:panic", fmt.Sprintf("unexplained: panic while running %s #%d: %v | %s", kind, idx, x, strings.ReplaceAll(string(buf), "\n", " | "))})
+		}
+	}()
+	f()
 }
 
 // reseed makes the global math/rand generator (used inside internal/cluster) a function of the harness seed.
@@ -85,34 +112,46 @@ func main() {
 	}
 	for i := 0; i < nMini; i++ {
 		reseed(r)
-		s := miniScenario(r.Fork())
-		emit(o, "scenario-mini", i, s, nil)
+		rr := r.Fork()
+		guarded(o, "scenario-mini", i, func() {
+			s := miniScenario(rr)
+			emit(o, "scenario-mini", i, s, nil)
+		})
 	}
 
 	reseed(r)
 	witnesses(o)
 
-	n := map[string]int{"join": 45, "restart": 12, "leave": 8, "fd": 25}
+	n := map[string]int{"join": 45, "islands": 10, "seedsplit": 10, "pending": 8, "restart": 12, "leave": 8, "fd": 25}
 	if thorough {
-		n = map[string]int{"join": 900, "restart": 240, "leave": 160, "fd": 500}
+		n = map[string]int{"join": 900, "islands": 200, "seedsplit": 200, "pending": 300, "restart": 240, "leave": 160, "fd": 500}
 	}
 	if f.N > 0 {
-		n = map[string]int{"join": f.N, "restart": f.N / 4, "leave": f.N / 4, "fd": f.N / 2}
+		n = map[string]int{"join": f.N, "islands": f.N / 4, "seedsplit": f.N / 4, "pending": f.N / 4, "restart": f.N / 4, "leave": f.N / 4, "fd": f.N / 2}
 	}
 	idx := 0
-	for _, class := range []string{"join", "restart", "leave", "fd"} {
+	for _, class := range []string{"join", "islands", "seedsplit", "pending", "restart", "leave", "fd"} {
 		for i := 0; i < n[class]; i++ {
 			idx++
 			reseed(r)
-			s, sc, hits := randomScenario(r.Fork(), idx, class, i%5 == 4)
-			emit(o, "scenario-"+class, idx, s, hits)
-			o.Stats[fmt.Sprintf("nodes=%d", len(sc.s.nodes)+len(sc.stopped))]++
-			if os.Getenv("XV_GOSSIP_TRACE") != "" {
-				fmt.Fprintf(os.Stderr, "%s steps=%d hits=%d\n", sc.name, len(s.steps), len(hits))
-			}
+			rr := r.Fork()
+			guarded(o, "scenario-"+class, idx, func() {
+				s, sc, hits := randomScenario(rr, idx, class, i%5 == 4, i)
+				emit(o, "scenario-"+class, idx, s, hits)
+				o.Stats[fmt.Sprintf("nodes=%d", len(sc.s.nodes)+len(sc.stopped))]++
+				if os.Getenv("XV_GOSSIP_TRACE") != "" {
+					fmt.Fprintf(os.Stderr, "%s steps=%d hits=%d\n", sc.name, len(s.steps), len(hits))
+				}
+			})
 		}
 	}
 	flushHits(o)
+	o.Info["joins_accepted_by_a_node_whose_own_join_was_pending"] = pendingAccepts
+	if lastUnavailable {
+		o.Info["observation_last_version_vector_table"] = "UNAVAILABLE: no field of NodeActor (or of a struct it holds) maps address strings to VersionVector; the component is projected out of the lock-step comparison, everything else (views, members, vectors, leader, events, packets, timers) is still compared"
+	} else {
+		o.Info["observation_last_version_vector_table"] = "observed at " + lastWhere
+	}
 	o.Close(f.Report)
 	if len(o.Monitors) > 0 {
 		os.Exit(3)
